@@ -189,4 +189,71 @@ def World.step (w : World) : Op → World
 
 def World.run (ops : List Op) : World := ops.foldl World.step World.init
 
+/-! ### several engines alive at the same time, sharing the caller's list objects and node objects
+
+`Force.nodes(x)` stores the caller's list OBJECT (`self._nodes = x`); `removeOverlap` sorts the list it is given in place, and for
+algorithm `none` that list is `_nodes` itself — so a layout by one engine can reorder the list another engine holds.  The node objects
+in the lists are shared as well (their `currentPos`, `layerIndex`, `parent` links are overwritten by whichever engine ran last).
+`MWorld` keeps the list objects in `lists` (engines refer to them by index), so this aliasing is part of the model. -/
+
+structure MEngine where
+  opts : FOpts
+  ref : Option Nat                        -- which list object `_nodes` is (`none`: the engine's own initial `[]`)
+  layers : Option (List (List Nat))
+deriving Repr
+
+inductive MOp where
+  | newEngine (o : FOpts)                 -- `Force(options)`: one more engine, which becomes the current one
+  | switch (k : Nat)                      -- the following operations address engine k
+  | setOptions (o : FOpts)                -- `set_options(...)` on the current engine: its accumulated options afterwards
+  | freshNodes (ls : List Label)          -- `x = [Node(...), …]; current.nodes(x)`: a new list object of new node objects
+  | useList (b : Nat)                     -- `current.nodes(x_b)`: the b-th list object, in whatever order and state it is now
+  | compute                               -- `current.compute()`
+
+structure MWorld where
+  store : Store
+  lists : List (List Nat)                  -- the list objects, as they are now
+  created : List (List Nat)                -- … and as they were created (payloads are reported as positions in here)
+  engines : List MEngine
+  cur : Nat
+  outs : List (Nat × List (List ObsT))     -- (engine, observation) after every compute
+
+def MWorld.init : MWorld := { store := #[], lists := [], created := [], engines := [], cur := 0, outs := [] }
+
+/-- the engine as `computeT` sees it: `_nodes` is the current content of the list object it refers to -/
+def MWorld.engineAt (w : MWorld) (k : Nat) : Engine :=
+  match w.engines[k]? with
+  | some e => { opts := e.opts, nodes := (e.ref.bind (fun b => w.lists[b]?)).getD [], layers := e.layers }
+  | none => { opts := FOpts.default, nodes := [], layers := none }
+
+def MWorld.step (w : MWorld) : MOp → MWorld
+  | .newEngine o => { w with engines := w.engines ++ [{ opts := o, ref := none, layers := none }], cur := w.engines.length }
+  | .switch k => if k < w.engines.length then { w with cur := k } else w
+  | .setOptions o => { w with engines := w.engines.modify w.cur (fun e => { e with opts := o }) }
+  | .freshNodes ls =>
+    if ls.isEmpty || w.engines.length ≤ w.cur then w else
+    let r := ls.foldl (fun (acc : Store × List Nat) l =>
+      let m := mkNode acc.1 l.ideal l.width acc.1.size
+      (m.1, acc.2 ++ [m.2])) (w.store, [])
+    { w with store := r.1, lists := w.lists ++ [r.2], created := w.created ++ [r.2],
+             engines := w.engines.modify w.cur (fun e => { e with ref := some w.lists.length, layers := none }) }
+  | .useList b =>
+    if b < w.lists.length then
+      { w with engines := w.engines.modify w.cur (fun e => { e with ref := some b, layers := none }) }
+    else w
+  | .compute =>
+    match w.engines[w.cur]? with
+    | none => w
+    | some e =>
+      let r := computeT (w.engineAt w.cur) w.store
+      let lists := match e.ref with
+        | some b => w.lists.modify b (fun _ => r.1.nodes)      -- algorithm `none` sorted the caller's list object in place
+        | none => w.lists
+      let batch := (e.ref.bind (fun b => w.created[b]?)).getD []
+      let obs := (observe r.2 (r.1.layers.getD [])).map (fun l => l.map (fun x => { x with data := batch.idxOf x.data }))
+      { w with store := r.2, lists := lists, engines := w.engines.modify w.cur (fun e => { e with layers := r.1.layers }),
+               outs := w.outs ++ [(w.cur, obs)] }
+
+def MWorld.run (ops : List MOp) : MWorld := ops.foldl MWorld.step MWorld.init
+
 end Labella.EngineT
